@@ -82,6 +82,8 @@ def run(ctx):
             # an earlier secure connection whose close completes late (unsent data in its write buffer), closed and reopened
             (dict(hosts=["10.0.0.1"], rounds=3, triggers=trig, prelude=["ok|10.0.0.1|ok+slow-close", "close", "ensure", "ok|10.0.0.1|ok"]), 2),
             (dict(hosts=["10.0.0.1"], rounds=3, triggers=trig, prelude=["ok|10.0.0.1|bad-sig+slow-close", "timer", "ok|10.0.0.1|ok"]), 2),
+            (dict(hosts=["10.0.0.1"], rounds=4, triggers=trig, subscriptions=True, env=dict(delivery="bytes", frames=[7], http="chunked-lower")), 1),
+            (dict(hosts=["10.0.0.1", "10.0.0.2"], rounds=3, triggers=trig, env=dict(delivery="3/4", frames=[40], http="upper")), 1),
             # shut down (from connected / from retrying): announcements and callers keep arriving afterwards
             (dict(hosts=["10.0.0.1"], rounds=4, triggers=trig, prelude=["ok|10.0.0.1|ok", "shutdown"]), 2),
             (dict(hosts=["10.0.0.1"], rounds=4, triggers=trig, prelude=["refuse", "shutdown"]), 2),
